@@ -336,11 +336,27 @@ pub fn run(ctx: &mut Ctx) {
             split_pair!(ctx, $n, $n);
         };
     }
+    macro_rules! more_split {
+        ($n:ty, [$($k:ty),*]) => { $( split_pair!(ctx, $n, $k); )* };
+    }
+    more_split!(U12, [U0, U1, U2, U3, U4, U5, U6, U7, U8, U9, U10, U11, U12]);
+    more_split!(U16, [U2, U3, U4, U5, U7, U9, U12, U14]);
+    more_split!(U17, [U2, U3, U4, U5, U7, U9, U12, U15]);
+    more_split!(U33, [U2, U3, U7, U8, U9, U11, U17, U24, U31]);
+    more_split!(U100, [U2, U3, U24, U25, U26, U33, U49, U51, U75, U98]);
+    more_split!(U1024, [U2, U3, U255, U256, U257, U511, U513, U768, U1022]);
     edge_split!(U16, U8, U15);
     edge_split!(U17, U8, U16);
     edge_split!(U33, U16, U32);
     edge_split!(U100, U50, U99);
     edge_split!(U1024, U512, U1023);
+    concat_pair!(ctx, U9, U3);
+    concat_pair!(ctx, U3, U9);
+    concat_pair!(ctx, U12, U4);
+    concat_pair!(ctx, U5, U12);
+    concat_pair!(ctx, U16, U16);
+    concat_pair!(ctx, U24, U9);
+    concat_pair!(ctx, U2, U31);
     concat_pair!(ctx, U16, U17);
     concat_pair!(ctx, U1, U1023);
     concat_pair!(ctx, U1023, U1);
